@@ -17,3 +17,18 @@ package pubsubraw
 //@   requires p != nil && p.ps != nil && p.ps.logger != nil && sub != nil
 //@   assert @ before call pubsub.NewEventMessage#1: msg.ReceivedFrom != p.ps.id
 //@   assert @ after send ch: ptr(sent(ch)[len(sent(ch)) - 1], "berty.tech/go-orbit-db/iface.EventPubSubMessage").Content == msg.Message.Data
+
+// WatchPeers (the forwarding goroutine): each peer event taken from the topic's event handler is reported
+// as exactly one event: a join as a join, a leave as a leave, carrying that peer.
+//@ extern (*github.com/libp2p/go-libp2p-pubsub.TopicEventHandler).NextPeerEvent as (h).NextPeerEvent(ctx) (evt, err)
+//@   modifies nothing
+//@ func (*psTopic).WatchPeers$1
+//@   props C20
+//@   flag nilcalls
+//@   requires p != nil && p.ps != nil && p.ps.logger != nil && ph != nil
+//@   loop 1 invariant p != nil && p.ps != nil && p.ps.logger != nil && ph != nil
+//@   loop 1 iter N := len(sent(ch))
+//@   assert @ after send ch: len(sent(ch)) == N + 1
+//@   assert @ after send ch: evt.Type == 0 ==> typeis(sent(ch)[N], "*berty.tech/go-orbit-db/iface.EventPubSubJoin") && ptr(sent(ch)[N], "berty.tech/go-orbit-db/iface.EventPubSubJoin").Peer == evt.Peer
+//@   assert @ after send ch: evt.Type == 1 ==> typeis(sent(ch)[N], "*berty.tech/go-orbit-db/iface.EventPubSubLeave") && ptr(sent(ch)[N], "berty.tech/go-orbit-db/iface.EventPubSubLeave").Peer == evt.Peer
+//@   assert @ after send ch: evt.Type == 0 || evt.Type == 1
